@@ -16,6 +16,7 @@ extern int simfs_fopen_calls, simfs_fopen_failed;
 extern char simfs_last_cmd[512];
 int  simfs_open_fds(void);               /* descriptors opened through mkstemp and not closed */
 int  simfs_open_dirs(void);
+int  simfs_live_temp_files(void);      /* files created by mkstemp that still exist */
 void simfs_tempfile_check_at_return(int fd);   /* oracle hook: called by workloads after spiftool_temp_file returns */
 int  simfs_fd_mode(int fd);
 const char *simfs_last_temp_name(void);  /* the name the last successful mkstemp produced, as written into its template */
